@@ -65,7 +65,7 @@ BOUNDS = {
                                  "symmetric injective stub (patterns 'all distinct' and 'first two identical' only)"],
                      "patterns": ["all distinct", "first two identical", "last two identical", "first and last identical", "all identical"]},
         "densify": {"n": [0, 4]},
-        "metric": {"alphabet": [-1.5, 0.0, 2.0], "length": [1, 3]},
+        "metric": {"alphabet": [-1.5, 0.0, 2.0], "length": [1, 3], "near_identical": "vectors over [-1.5, 0.3, 2.0, 40.0], length 1..3, every sign pattern of a relative perturbation 1e-7 / 1e-9 / 1e-11"},
         "cli": {"n_thetas": 4, "n_chunks": [1, 3]},
     },
     "thorough": {
@@ -74,7 +74,7 @@ BOUNDS = {
                      "metrics": ["MSEDistance(sigmoid=True)", "MSEDistance(sigmoid=False)", "symmetric injective stub"],
                      "patterns": ["all distinct", "first two identical", "last two identical", "first and last identical", "all identical"]},
         "densify": {"n": [0, 5]},
-        "metric": {"alphabet": [-1.5, 0.0, 2.0, 40.0], "length": [1, 3]},
+        "metric": {"alphabet": [-1.5, 0.0, 2.0, 40.0], "length": [1, 3], "near_identical": "as quick"},
         "cli": {"n_thetas": 4, "n_chunks": [1, 4]},
     },
 }
@@ -552,6 +552,10 @@ def metric_case(col, sigmoid, a, b):
     col.outcome("metric", ab)
 
 
+NEAR_ALPHABET = [-1.5, 0.3, 2.0, 40.0]
+NEAR_EPS = [1e-7, 1e-9, 1e-11]
+
+
 def check_metric(col, alphabet, max_len):
     for sigmoid in (True, False):
         for length in range(1, max_len + 1):
@@ -559,6 +563,16 @@ def check_metric(col, alphabet, max_len):
             for a in vecs:
                 for b in vecs:
                     metric_case(col, sigmoid, a, b)
+        # nearly (not exactly) identical predictions: two posterior samples that differ in the 7th..11th digit - the
+        # regime where an algebraically equivalent rewrite of the metric can cancel to a negative number
+        for length in (1, 2, 3):
+            for a in itertools.product(NEAR_ALPHABET, repeat=length):
+                for signs in itertools.product((-1.0, 0.0, 1.0), repeat=length):
+                    if not any(signs):
+                        continue
+                    for eps in NEAR_EPS:
+                        b = tuple(x + eps * sg * (1.0 + abs(x)) for x, sg in zip(a, signs))
+                        metric_case(col, sigmoid, a, b)
 
 
 # ------------------------------------------------------------------ CLI
